@@ -173,7 +173,7 @@ func init() {
 		Note: "the doc is silent on what makes a flow positive/negative: following the code, a bar's raw flow is positive when the RAW FLOW (typical price * volume) rose against the previous bar, negative when it fell (the textbook criterion is the typical price alone); exempt where the negative flow sum is 0",
 	})
 	RegInd(&Ind{
-		Name: "volume.Nvi", In: []string{"C", "V"}, Out: []string{"nvi"},
+		Name: "volume.Nvi", Periods: []int{}, In: []string{"C", "V"}, Out: []string{"nvi"},
 		// configuration = the Initial value
 		Cfgs: func(t bool) [][]float64 {
 			if t {
